@@ -20,7 +20,9 @@ RULE = ("EXHAUSTIVE: every string of length <= 4 over {quote, slash, space, a} a
         "quotes, slashes, names equal to another name's escaped form) path-level and END-TO-END: files with 2-5 confusable "
         "(group, channel) pairs written by TdmsWriter and by the independent encoder are read back and every channel must be "
         "found under its own names, report name / group_name / path unchanged, carry its own data, and be listed once. "
-        "Non-trivial: a name containing a quote or slash or being empty.")
+        "Non-trivial: a name containing a quote or slash or being empty."
+        ' A further writer mode writes the same channels three times, the last time in the opposite order with other '
+        'lengths; every file is also opened lazily and each channel read from every start offset.')
 ASSUMPTIONS = [
     "TDMS path syntax: /'group'/'channel' with single quotes doubled inside names (vf/model.py make_path)",
     "surrogate code points are excluded (not encodable as UTF-8)",
